@@ -382,7 +382,10 @@ class Escape:
         if self.in_range_loop_over(fi, sub, bt):
             return []
         kinds = []
-        if 'dict' in types and not ({'list', 'bytes', 'tuple', 'str'} & types):
+        if isinstance(idx, ast.Constant) and isinstance(idx.value, str):
+            # a string index is only meaningful on a mapping (anything else is a TypeError, outside this catalogue)
+            kinds = ['KeyError']
+        elif 'dict' in types and not ({'list', 'bytes', 'tuple', 'str'} & types):
             kinds = ['KeyError']
         elif ({'list', 'bytes', 'tuple', 'str'} & types) and 'dict' not in types:
             kinds = ['IndexError']
